@@ -627,7 +627,14 @@ def d6_purity(ctx):
                           "(lp + hp is no longer the identity, bp no longer hp o lp)", key=f"purity:{q}:{p}")
 
 
+def dS_shared(ctx):
+    from sa.common import rule_no_shared_mutation
+    rule_no_shared_mutation(ctx, "DS", [MOD + "._freq_filter", MOD + ".lp", MOD + ".hp", MOD + ".bp", MOD + ".convolve", MOD + ".fscale", MOD + ".ns_optim_fft", MOD + ".fexpand", MOD + ".freduce"],
+                            "the response used by a later filter call is the one an earlier call modified (lp + hp is no longer the identity, bp no longer hp * lp)")
+
+
 def run(ctx):
+    ctx.run(dS_shared)
     ctx.run(d1_irfft)
     ctx.run(d2_same_crop)
     ctx.run(d3_filters)
